@@ -305,6 +305,8 @@ def c10():
     return [
         j("c10_overflow_destroy_typed_foo_3", Q, 100, "state AT the counter-overflow panic inside destroy(Entity) satisfies Inv, every entity whole or (target) absent", **ov),
         j("c10_overflow_destroy_any_foo_3", Q, 100, "same inside World::destroy(EntityAny)", **ov),
+        j("c10_overflow_destroy_any_foo_3", Q, 120, "feature events: at the panic point the destroyed log lists exactly the entities really gone (a destroy that panics and leaves its entity alive logged nothing)", features=("events",), **ov),
+        j("c10_overflow_iter_destroy_foo_2", T, 200, "feature events: same in the middle of ecs_iter_destroy! (entities destroyed earlier in the pass are logged, the one that panicked is not)", features=("events",), **ov),
         j("c10_overflow_destroy_direct_foo_2", T, 80, "same inside destroy(EntityDirect)", **ov),
         j("c10_overflow_destroy_directany_foo_2", T, 80, "same inside World::destroy(EntityDirectAny)", **ov),
         j("c10_overflow_destroy_any_tri_2", T, 100, "same, 3-column archetype", **ov),
@@ -417,6 +419,8 @@ def c11():
         jobs.append(Job(harness="c11b::empty::" + h, tier=t, cost=60, what="EMPTY archetype cell: an outstanding guard on a column of an empty (possibly emptied) archetype does not make ecs_iter_borrow! over it panic", bounds=b, assumes=a))
     for h, t in (("c11b_break_before_guarded_mut", Q), ("c11b_break_before_guarded_shared", T)):
         jobs.append(Job(harness="c11b::empty::" + h, tier=t, cost=60, what="Break in an earlier archetype: a guard on a column of a LATER matched archetype conflicts with nothing", bounds=b, assumes=a))
+    for h, t in (("c11b_static_api_after_leak_mut_p", Q), ("c11b_static_api_after_leak_shared_pad", T), ("c11b_static_api_after_leak_component_mut", T)):
+        jobs.append(Job(harness="c11b::leaked::" + h, tier=t, cost=100, what="the statically checked (&mut self) API never consults the cells: after a guard was LEAKED with mem::forget, iter / iter_mut / slice accessors / view / ecs_iter! / ecs_find! still work", bounds=b, assumes=a))
     jobs.append(J("c11b_ok_clone_outer_shared_reentry", Q, 40, what="clone as the OUTER access: shared re-entry and a mutable borrow in another archetype succeed", bounds=b, assumes=a))
     for h in cells:
         jobs.append(J(h, Q if h in quick_p else T, 30, what="conflicting nested access panics (already borrowed); nothing after it is reachable", bounds=b, assumes=a,
@@ -447,6 +451,8 @@ def c17():
     def j(h, t, c, w):
         return J(h, t, c, what=w, bounds=b, assumes=a, features=f)
     return [
+        J("c10_overflow_destroy_any_foo_3", Q, 120, what="a destroy that panics on counter overflow and leaves its entity alive logs nothing (state at the panic point; natively after catch_unwind)", bounds=b, assumes=(INV_ASSUME,) + STUBS, features=f, stubbing=True, role="overflow_mid_destroy"),
+        J("c10_overflow_destroy_typed_foo_3", T, 120, what="same through Archetype::destroy(Entity)", bounds=b, assumes=(INV_ASSUME,) + STUBS, features=f, stubbing=True, role="overflow_mid_destroy"),
         j("c17_delta_create_2", Q, 150, "create appends exactly the returned handle to the created log"),
         j("c17_delta_within_2", Q, 150, "create_within_capacity: Ok appends, Err appends nothing"),
         j("c17_delta_destroy_wtyped_2", T, 200, "World::destroy(Entity) appends exactly the destroyed handle; miss appends nothing"),
@@ -487,10 +493,12 @@ def c19():
         ("c08::c08_overflow_slot_typed_foo_3", 60, (), EXPECT_OVERFLOW),
         ("c08::c08_overflow_arch_typed_foo_3", 60, (), EXPECT_OVERFLOW),
         ("c19::c19_wide17_destroy_2", 300, (), ()),
+        # non-event API under `events` with never-cleared logs: fill, destroy, refill (create_within_capacity Ok iff len < capacity)
+        ("c12::c12_refill_api_2", 200, (), ()),
     ]
     quick_sets = {((), True), ((), False), (("events", "wrapping_version", "c32"), True), (("events", "wrapping_version", "c32"), False)}
     quick_core = {"c03::c03_forged_destroy_any_foo_3", "c03::c03_direct_arch_foo_3", "c01::c01_create_foo_3", "c01::c01_destroy_typed_foo_3", "c03::c03_forged_arch_foo_3", "c04::c04_destroy_any_3",
-                  "c08::c08_overflow_slot_typed_foo_3", "c19::c19_wide17_destroy_2", "c13::c13_clone_destroy_on_orig_foo_3"}
+                  "c08::c08_overflow_slot_typed_foo_3", "c19::c19_wide17_destroy_2", "c13::c13_clone_destroy_on_orig_foo_3", "c12::c12_refill_api_2"}
     jobs = []
     for fs in FEATURE_SETS:
         for dbg in (True, False):
@@ -509,7 +517,7 @@ def c19():
 
 
 PROPERTIES = {
-    "C01": dict(jobs=c01, title="A handle resolves iff its entity is alive; stale handles never resolve"),
+    "C01": dict(e2=True, jobs=c01, title="A handle resolves iff its entity is alive; stale handles never resolve"),
     "C02": dict(jobs=c02, title="Every access path returns the entity's own, latest component values"),
     "C03": dict(e2=True, jobs=c03, title="Arbitrary, forged or foreign handles are memory-safe and never match by accident"),
     "C05": dict(e2=True, jobs=c05_e1, title="Queries act on exactly the matching archetypes"),
@@ -517,7 +525,7 @@ PROPERTIES = {
     "C06": dict(jobs=c06, title="Iteration visits every matching live entity exactly once"),
     "C07": dict(jobs=c07, title="ecs_iter_destroy! visits once, destroys exactly the flagged ones"),
     "C08": dict(e2=True, jobs=c08, title="No handle is ever issued twice"),
-    "C09": dict(jobs=c09, title="A direct handle never designates another entity and dies with any removal"),
+    "C09": dict(e2=True, jobs=c09, title="A direct handle never designates another entity and dies with any removal"),
     "C10": dict(e2=True, jobs=c10, title="A panic leaves the world consistent"),
     "C11": dict(jobs=c11, title="Runtime-borrowed access panics instead of aliasing"),
     "C12": dict(e2=True, jobs=c12, title="len and capacity are exact"),
